@@ -20,7 +20,7 @@ package server
 //                      ctRel = record command time − base; times relative to <base> so that cases are reproducible)
 //         <nowRel>  = second of the restart − base
 //   obs   the restored snapshot: ';'-separated holds sorted by (db,key,lockId)
-//                     <db>.<key>.<lockId>.<depth>.<count>.<rcount>.<eflag>.<deadlineRel|inf>   then '|' and the key values
+//                     <db>.<key>.<lockId>.<depth>.<count>.<rcount>.<eflag>.<tflag&0x1010>.<deadlineRel|inf>   then '|' and the key values
 //                     <db>.<key>=<valuehex|n>
 //   The original node's snapshot (same syntax, plus .A/.N = journalled or not) is part of the monitor replay objects.
 //
@@ -38,6 +38,7 @@ package server
 //     C07:restart-fails
 //   compaction — the meaning of the journal (and the real recovery) before and after a REAL compaction:
 //     C16:compaction:live-record-dropped               a dropped LOCK record carried the hold's CURRENT terms (a live hold is lost/changed)
+//     C16:compaction:priority-update-record-dropped    … and it is the update record of a hold taken with Rcount-is-priority
 //     C16:compaction:expired-level-record-dropped      a record of a live hold's history was dropped by the compaction's expiry filter
 //     C16:compaction:superseded-level-record-dropped   a record that accounts for a level was dropped as stale by the keep-rule
 //     C16:compaction:value-record-dropped              the key's value was carried by a record of a hold that is gone
@@ -73,6 +74,7 @@ type vRHold struct {
 	db, key, lockId      int
 	depth, count, rcount int
 	eflag, expried       int
+	tflag                int // TimeoutFlag & 0x1010 (Rcount-is-priority, require-ack)
 	deadline             int64
 	isAof                bool
 }
@@ -109,7 +111,7 @@ func (s *vRSnap) String(base int64, withAof bool) string {
 		if h.deadline != 0x7fffffffffffffff {
 			d = fmt.Sprint(h.deadline - base)
 		}
-		hs[i] = fmt.Sprintf("%d.%d.%d.%d.%d.%d.%x.%s", h.db, h.key, h.lockId, h.depth, h.count, h.rcount, h.eflag, d)
+		hs[i] = fmt.Sprintf("%d.%d.%d.%d.%d.%d.%x.%x.%s", h.db, h.key, h.lockId, h.depth, h.count, h.rcount, h.eflag, h.tflag, d)
 		if withAof {
 			if h.isAof {
 				hs[i] += ".A"
@@ -346,7 +348,7 @@ func (n *vRNode) snapshot(keys [][2]int) *vRSnap {
 			if l != nil && l.locked > 0 && l.command != nil && !seen[l] {
 				seen[l] = true
 				out.holds = append(out.holds, vRHold{db: dk[0], key: dk[1], lockId: vRInt(l.command.LockId), depth: int(l.locked), count: int(l.command.Count),
-					rcount: int(l.command.Rcount), eflag: int(l.command.ExpriedFlag) & 0x4440, expried: int(l.command.Expried), deadline: l.expriedTime, isAof: l.isAof})
+					rcount: int(l.command.Rcount), eflag: int(l.command.ExpriedFlag) & 0x4440, expried: int(l.command.Expried), tflag: int(l.command.TimeoutFlag) & 0x1010, deadline: l.expriedTime, isAof: l.isAof})
 			}
 		}
 		add(m.currentLock)
@@ -500,7 +502,7 @@ func vRGenCase(r *rand.Rand, it int) *vRCase {
 		}
 	}
 	type held struct {
-		eflag, expried, count, rcount int
+		eflag, expried, count, rcount, tflag int
 	}
 	heldBy := map[[3]int]*held{}
 	nops := 12 + r.Intn(25)
@@ -539,7 +541,7 @@ func vRGenCase(r *rand.Rand, it int) *vRCase {
 			// new lock (or re-entrant re-lock of the same terms when already held)
 			cmd := &vRCmd{kind: 'L', db: dk[0], key: dk[1], lockId: id}
 			if h != nil {
-				cmd.eflag, cmd.expried, cmd.count, cmd.rcount = h.eflag, h.expried, h.count, h.rcount
+				cmd.eflag, cmd.expried, cmd.count, cmd.rcount, cmd.tflag = h.eflag, h.expried, h.count, h.rcount, h.tflag
 			} else {
 				cmd.eflag, cmd.expried = genTerms()
 				cmd.count = r.Intn(3)
@@ -547,7 +549,15 @@ func vRGenCase(r *rand.Rand, it int) *vRCase {
 				if r.Intn(5) == 0 {
 					cmd.timeout = 1 + r.Intn(3)
 				}
-				heldBy[hk] = &held{cmd.eflag, cmd.expried, cmd.count, cmd.rcount}
+				if r.Intn(6) == 0 {
+					// Rcount is a PRIORITY (no re-entrancy): journalled with AOF_FLAG_RCOUNT_IS_PRIORITY, restored by HandleLoad;
+					// with a timeout it may wait (ordered by priority) and be granted — and journalled — later
+					cmd.tflag = protocol.TIMEOUT_FLAG_RCOUNT_IS_PRIORITY
+					if r.Intn(2) == 0 {
+						cmd.timeout = 2 + r.Intn(6)
+					}
+				}
+				heldBy[hk] = &held{cmd.eflag, cmd.expried, cmd.count, cmd.rcount, cmd.tflag}
 			}
 			if r.Intn(3) == 0 {
 				cmd.data = vRGenData(r)
@@ -581,7 +591,8 @@ func vRGenCase(r *rand.Rand, it int) *vRCase {
 			if r.Intn(3) == 0 {
 				cmd.data = vRGenData(r)
 			}
-			*h = held{cmd.eflag, cmd.expried, cmd.count, cmd.rcount}
+			cmd.tflag = h.tflag
+			*h = held{cmd.eflag, cmd.expried, cmd.count, cmd.rcount, cmd.tflag}
 			c.ops = append(c.ops, vROp{cmd: cmd})
 		case pick < 60 && h != nil:
 			cmd := &vRCmd{kind: 'U', db: dk[0], key: dk[1], lockId: id, rcount: r.Intn(3)}
@@ -649,8 +660,8 @@ func vRCompareHolds(prefix string, want []vRHold, got []vRHold, why func(h vRHol
 		if g.depth != w.depth {
 			out = append(out, vRDiff{prefix + ":depth-mismatch", fmt.Sprintf("hold db %d key %d LockId %d has depth %d after the restart, %d before", w.db, w.key, w.lockId, g.depth, w.depth), w.id()})
 		}
-		if g.count != w.count || g.rcount != w.rcount {
-			out = append(out, vRDiff{prefix + ":count-mismatch", fmt.Sprintf("hold db %d key %d LockId %d has Count/Rcount %d/%d after the restart, %d/%d before", w.db, w.key, w.lockId, g.count, g.rcount, w.count, w.rcount), w.id()})
+		if g.count != w.count || g.rcount != w.rcount || g.tflag != w.tflag {
+			out = append(out, vRDiff{prefix + ":count-mismatch", fmt.Sprintf("hold db %d key %d LockId %d has Count/Rcount/TimeoutFlag %d/%d/%x after the restart, %d/%d/%x before", w.db, w.key, w.lockId, g.count, g.rcount, g.tflag, w.count, w.rcount, w.tflag), w.id()})
 		}
 		if checkDeadline {
 			if g.deadline == 0x7fffffffffffffff && w.deadline == 0x7fffffffffffffff {
@@ -924,6 +935,11 @@ func (e *vREnv) runCase(it int, c *vRCase) {
 	stats["holds-restored"] += len(snA.holds)
 	// ---- the journal, read as a specification (vRRecover)
 	recsA := vRParseJournal(jA)
+	for _, rc := range recsA {
+		if rc.aofFlag&AOF_FLAG_RCOUNT_IS_PRIORITY != 0 {
+			stats["priority-records"]++
+		}
+	}
 	ideal := vRRecover(recsA, base)
 	e.jout.emit("aofjournal "+jA, ideal.String(base))
 	replay["journalMeans"] = ideal.String(base)
@@ -1013,7 +1029,8 @@ func (e *vREnv) runCase(it int, c *vRCase) {
 	lineB := e.rout.n
 	e.rout.emit(fmt.Sprintf("aofreload %d %s", nowB-base, jB), snB.String(base, false))
 	rpB := map[string]interface{}{"history": history, "base": base, "restartAt": nowB - base, "journal": jB, "restored": snB.String(base, false), "afterCompaction": true, "corpus": c.name}
-	_ = e.replayCheck(recsB, snB, nowB, base, lineB, origBy, badJ, rpB)
+	// (the journal after the compaction is judged on its own: the database's deadlines belong to the journal before it)
+	_ = e.replayCheck(recsB, snB, nowB, base, lineB, map[[3]int]vRHold{}, badJ, rpB)
 	nearB := func(h vRHold) bool {
 		unit, _ := vRUnit(h.eflag)
 		return h.deadline != 0x7fffffffffffffff && h.deadline <= nowB+unit+2
@@ -1031,7 +1048,7 @@ func (e *vREnv) runCase(it int, c *vRCase) {
 				after[rk{r.kind, r.ct, r.stored, r.flag, r.aofFlag &^ 1}]++
 			}
 		}
-		dropped, expired, live := 0, 0, false
+		dropped, expired, live, prio := 0, 0, false, false
 		o, okO := origBy[id]
 		for _, r := range recsA {
 			if [3]int{r.db, r.key, r.id} != id {
@@ -1055,10 +1072,16 @@ func (e *vREnv) runCase(it int, c *vRCase) {
 				}
 				if rd == o.deadline || (rd != 0x7fffffffffffffff && o.deadline != 0x7fffffffffffffff && rd-o.deadline <= unit+1 && o.deadline-rd <= unit+1) {
 					live = true
+					if r.flag&protocol.LOCK_FLAG_UPDATE_WHEN_LOCKED != 0 && r.aofFlag&AOF_FLAG_RCOUNT_IS_PRIORITY != 0 {
+						prio = true
+					}
 				}
 			}
 		}
 		switch {
+		case prio:
+			// the command the compaction compares with carries no TimeoutFlag: checkLockedCountEqual sees "priority flag differs"
+			return "priority-update-record-dropped"
 		case live:
 			return "live-record-dropped"
 		case expired > 0:
@@ -1557,7 +1580,14 @@ func vRRecover(recs []vRRec, base int64) *vRIdeal {
 			if d != 0x7fffffffffffffff {
 				d += base
 			}
-			terms := vRHold{db: r.db, key: r.key, lockId: r.id, depth: 1, count: r.count, rcount: r.rcount, eflag: r.eflag & 0x4440, expried: r.stored, deadline: d, isAof: true}
+			tf := 0
+			if r.aofFlag&AOF_FLAG_REQUIRE_ACKED != 0 {
+				tf |= protocol.TIMEOUT_FLAG_REQUIRE_ACKED
+			}
+			if r.aofFlag&AOF_FLAG_RCOUNT_IS_PRIORITY != 0 {
+				tf |= protocol.TIMEOUT_FLAG_RCOUNT_IS_PRIORITY
+			}
+			terms := vRHold{db: r.db, key: r.key, lockId: r.id, depth: 1, count: r.count, rcount: r.rcount, eflag: r.eflag & 0x4440, expried: r.stored, tflag: tf, deadline: d, isAof: true}
 			switch {
 			case h == nil:
 				st.holds[id] = &terms
